@@ -65,6 +65,8 @@ Matches(required, reported) ==
   /\ \A i \in DOMAIN required : required[i] = AnyId \/ required[i] = reported[i]
 
 Consecutive(ids, from) == \A i \in DOMAIN ids : ids[i] = from + i
+(* the order in which a module lists its anonymous identifiers is not specified *)
+SameIds(a, b) == Len(a) = Len(b) /\ Range(a) = Range(b)
 
 ---------------------------------------------------------------------------
 (* Process and job state *)
@@ -173,7 +175,7 @@ BlameModEnd(ps, e) ==
     IF Matches(j.errs, Ids(e.groups)) THEN {} ELSE {"EarlyExit.module-errors"}
   ELSE IF j.ph # "load" \/ j.cur.st # "built" THEN {"PassOrder.front-stage-order"}
   ELSE (IF e.groups # <<>> THEN {"EarlyExit.module-errors"} ELSE {})
-       \cup (IF e.ids = j.cur.ids THEN {}
+       \cup (IF SameIds(e.ids, j.cur.ids) THEN {}
              ELSE IF j.cur.hit THEN {"Cache.hit-returns-cached-module"}
              ELSE {"Counter.anonymous-numbering"})
 
@@ -198,11 +200,11 @@ BlameSer(ps, e) == IF ps.job.ph = "ir" /\ ps.job.fe /\ ps.job.mode = "split" THE
 BlameDeser(ps, e) == IF ps.job.ph = "ser" THEN {} ELSE {"Split.deserialize-without-json"}
 
 BlameBack(ps, e) ==
-  IF ps.job.ph = "ir" /\ ps.job.fe /\ ps.job.mode # "front" THEN {} ELSE {"PassOrder.back-end-without-ir"}
+  IF ps.job.ph = "ir" /\ ps.job.fe /\ ps.job.mode \notin {"front", "passes"} THEN {} ELSE {"PassOrder.back-end-without-ir"}
 
 BlameReport(ps, e) ==
   LET j == ps.job
-      done == IF j.mode = "front" THEN "ir" ELSE "header"
+      done == IF j.mode \in {"front", "passes"} THEN "ir" ELSE "header"
   IN
   (IF j.ph = "err" THEN
      (IF e.kind = "errors" THEN {} ELSE {"EarlyExit.errors-dropped"})
@@ -229,7 +231,7 @@ Blame(ps, e) ==
                                  LET b == BlameHit(ps) IN
                                  IF b # {} THEN b
                                  ELSE (IF e.groups # <<>> THEN {"EarlyExit.module-errors"} ELSE {})
-                                      \cup (IF e.ids = ps.cache[Key(ps.job.cur)].ids THEN {}
+                                      \cup (IF SameIds(e.ids, ps.cache[Key(ps.job.cur)].ids) THEN {}
                                             ELSE {"Cache.hit-returns-cached-module"})
                                ELSE BlameModEnd(ps, e)
     [] e.ev = "Pass"        -> BlamePass(ps, e)
@@ -250,9 +252,14 @@ J(ps, j) == [ps EXCEPT !.job = j]
 Fail(j, ids) == [j EXCEPT !.ph = "err", !.errs = ids]
 
 DoCompile(ps, e) ==
-  [ps EXCEPT !.ncompiles = @ + 1,
-             !.job = [IdleJob EXCEPT !.ph = "load", !.tid = e.tid, !.main = e.main, !.mode = e.mode,
-                                     !.key = e.key, !.queue = <<e.main>>, !.seen = {e.main}]]
+  IF e.mode = "passes"
+  THEN (* only the IR-processing half is driven (scenario replay): an IR is already there *)
+       [ps EXCEPT !.ncompiles = @ + 1,
+                  !.job = [IdleJob EXCEPT !.ph = "passes", !.k = 1, !.tid = e.tid, !.main = e.main, !.mode = e.mode,
+                                          !.key = e.key, !.seen = {e.main}, !.readok = {e.main}]]
+  ELSE [ps EXCEPT !.ncompiles = @ + 1,
+                  !.job = [IdleJob EXCEPT !.ph = "load", !.tid = e.tid, !.main = e.main, !.mode = e.mode,
+                                          !.key = e.key, !.queue = <<e.main>>, !.seen = {e.main}]]
 
 DoRead(ps, e) ==
   LET j == ps.job IN
